@@ -59,7 +59,7 @@ def run_recorded(case):
 
 def oracle_c01(case, lines, runner=None):
     """time order / urgent first / trigger order / exact due time / priority classes, from the recorded schedule"""
-    if case.mode != 'step' or any(l.startswith('X TypeError') for l in lines):
+    if case.mode != 'step' or externally_triggered(instrumented(case)):
         return []
     r, env = run_recorded(case)
     fails = [{'what': p, 'signature': 'c01-order'} for p in env.problems[:2]]
@@ -155,7 +155,7 @@ def instrumented(case):
 def oracle_c02(case, lines, runner=None):
     """every waiter receives the awaited event's outcome exactly once, at the instant it is processed (or at once if it
     already was); second triggers are refused; an unhandled failure surfaces"""
-    if case.mode != 'step' or any(l.startswith('X TypeError') for l in lines):
+    if case.mode != 'step':
         return []
     r = instrumented(case)
     fails = []
@@ -194,8 +194,14 @@ def oracle_c02(case, lines, runner=None):
                               'signature': 'c02-trigger-once'}); break
     # failures are never lost: a processed failed event is either defused or made the run raise its exception
     xs = [l for l in lines if l.startswith('X ')]
+    failed_types = {type(ev._value).__name__ for ev in r.keep if getattr(ev, '_ok', True) is False}
+    for l in xs:
+        t = l.split(' ')[1]
+        if t not in failed_types and not (t == 'TypeError' and ext):
+            fails.append({'what': f'step() raised {t}, which is not the exception of any failed event of the program', 'signature': 'c02-kernel-raised'})
+            break
     for ev in r.keep:
-        if ev.callbacks is None and getattr(ev, '_ok', True) is False and not ev.defused:
+        if ev.callbacks is None and getattr(ev, '_ok', True) is False and not ev.defused and r.lab(ev) not in ext:
             if not any(l.split(' ')[1] == type(ev._value).__name__ for l in xs):
                 fails.append({'what': f'event e{r.lab(ev)} failed with {ev._value!r}, nobody handled it, and the run did not raise it',
                               'signature': 'c02-failure-lost'}); break
@@ -204,9 +210,9 @@ def oracle_c02(case, lines, runner=None):
 
 def oracle_c04(case, lines, runner=None):
     """interrupts: refused iff the victim is dead or the caller itself; delivered once, at the issue instant, in issue order"""
-    if any(l.startswith('X TypeError') for l in lines):
-        return []
     r = instrumented(case)
+    if externally_triggered(r):
+        return []
     fails = []
     issued = {}      # victim name -> list of (cause, now)
     got = {}
@@ -248,8 +254,6 @@ def leaves(r, ev):
 
 def oracle_c05(case, lines, runner=None):
     """conditions: processed at the instant the predicate first holds; value = processed leaves in operand order"""
-    if any(l.startswith('X TypeError') for l in lines):
-        return []
     r = instrumented(case)
     fails = []
     by_label = {r.lab(e): e for e in r.keep}
